@@ -265,12 +265,30 @@ Theorem C03_unqualified_name_refused : forall lower is_space sel conn s cap cfg 
 Proof. exact unqualified_refused. Qed.
 Print Assumptions C03_unqualified_name_refused.
 
+(** Config.GetCertificate as a whole: an event handler's veto and a TLS-ALPN challenge ClientHello
+    (server name given, "acme-tls/1" the only ALPN protocol) without a challenge in progress give an
+    error and leave the cache alone -- never a certificate of the cache; every other ClientHello is
+    answered by [lookup_x], to which all of the above applies *)
+Theorem C03_get_certificate_branches : forall lower is_space sel abort protos conn s cap cfg sni ip e,
+  (abort = true \/ acme_tls_alpn sni protos = true ->
+   get_certificate lower is_space sel abort protos conn s cap cfg sni ip e = (RErr, s)) /\
+  (abort = false -> acme_tls_alpn sni protos = false ->
+   get_certificate lower is_space sel abort protos conn s cap cfg sni ip e =
+   lookup_x lower is_space sel conn s cap cfg sni ip e).
+Proof.
+  intros. unfold get_certificate. split.
+  - intros [->|H]; [reflexivity|]. rewrite H. destruct abort; reflexivity.
+  - intros -> ->. reflexivity.
+Qed.
+Print Assumptions C03_get_certificate_branches.
+
 (** translator tie: the conjuncts of SubjectQualifiesForCert read from the source today, and the
     almost-full factor *)
 Theorem C03_code_constants_today :
   qualify_conds = [QNonBlank; QNotPrefix [46%N]; QNotSuffix [46%N];
                    QOnlyIf [42%N] [42%N; 46%N] [42%N]; QNoneOf reject_chars_ref] /\
-  almost_full_num = 9 /\ almost_full_den = 10.
+  almost_full_num = 9 /\ almost_full_den = 10 /\
+  acme_tls1_protocol = [97; 99; 109; 101; 45; 116; 108; 115; 47; 49]%N.     (* "acme-tls/1" *)
 Proof. repeat split; reflexivity. Qed.
 Print Assumptions C03_code_constants_today.
 
@@ -319,6 +337,14 @@ Theorem C03_spec_ok_of_model : forall lower is_space names_of c,
   spec_lookup_o lower is_space c (obs_of c (fst (run_lookup lower is_space c))) = true.
 Proof. exact spec_lookup_of_model. Qed.
 Print Assumptions C03_spec_ok_of_model.
+
+(** the handshake and Cache.AllMatchingCertificates agree: a matched answer (default policy, server
+    name given) is one of the certificates AllMatchingCertificates reports for the normalised name *)
+Theorem C03_answer_among_all_matching : forall lower is_space names_of c,
+  Inv names_of (l_cap c) (l_state c) ->
+  spec_amc_o lower is_space c (obs_of c (fst (run_lookup lower is_space c))) (amc_of lower is_space c) = true.
+Proof. intros lower is_space names_of c HI. exact (spec_amc_of_model lower is_space names_of c HI). Qed.
+Print Assumptions C03_answer_among_all_matching.
 
 Theorem C03_spec_cache_of_model : forall lower is_space c,
   let nm := names_of_pool (Check.case_certs c) in
